@@ -390,6 +390,21 @@ class CallsMixin:
             raise Unsupported('index_in on a sequence without a registered position function')
         return K.vint(K.nsel(ent[1], K.coerce(x, seq.kind.elem).terms))
 
+    def b_use_lemma(self, args, kwargs, node):
+        """Ghost: assume a separately proved lemma, instantiated with the given bindings."""
+        name = simp(args[0].t).as_string()
+        params, hyps, concl = self.w.lemma_texts[name]
+        sub = self.sub_interp(dict(kwargs))
+        for p_ in params:
+            if p_ not in sub.env:
+                raise Unsupported('use_lemma(%s): missing binding %s' % (name, p_))
+        sub.spec = True
+        sub.old_env, sub.old_heap, sub.old_globals = self.old_env, self.old_heap, self.old_globals
+        hs = [sub.truth(sub.eval_text(h)) for h in hyps]
+        self.p.assume(z3.Implies(z3.And(*hs) if hs else z3.BoolVal(True), sub.truth(sub.eval_text(concl))))
+        self.p.used_lemmas = getattr(self.p, 'used_lemmas', set()) | {name}
+        return K.NONE
+
     def b_last_sorted(self, args, kwargs, node):
         return self.p.last_sorted
 
